@@ -188,7 +188,8 @@ def implGroup : Val → Res
         else:
             s = set(); arr = []
             for x in a:
-                sx = str(x)
+                # (after 69a7d58) the text alone does not identify a member
+                sx = (backend.is_number(x), isinstance(x, KGSym), is_list(x), str(x))
                 if sx not in s: s.add(sx); arr.append(x)
             return backend.kg_asarray(arr)
     return a                                                                              -/
@@ -206,6 +207,19 @@ def pyStr : Val → Option (List Nat)
   | .str cs => some cs
   | .sym cs => some cs
   | _ => none
+
+def isSymV : Val → Bool
+  | .sym _ => true
+  | _ => false
+
+def isListV : Val → Bool
+  | .list _ => true
+  | _ => false
+
+/-- the key of the Range loop (after 69a7d58):
+    `(backend.is_number(x), isinstance(x, KGSym), is_list(x), str(x))` -/
+def rangeKey (x : Val) : Bool × Bool × Bool × Option (List Nat) :=
+  (x.isNum, isSymV x, isListV x, pyStr x)
 
 /-- lexicographic order of integer rows (np.unique(axis=0) sorts the rows as records) -/
 def rowLe : List Int → List Int → Bool
@@ -235,7 +249,7 @@ def implRange : Val → Res
         else .unmodelled                                      -- ragged / empty rows
       | none =>
         if xs.all (fun x => (pyStr x).isSome) then            -- object vector of modelled atoms
-          .ok (.list (pyDedupBy pyStr [] xs))
+          .ok (.list (pyDedupBy rangeKey [] xs))
         else .unmodelled                                      -- reals, nested members
   | _ => .unmodelled
 
